@@ -3,7 +3,10 @@
 A dump is (pages, opts):
   page = {"uid", "title", "ns", "model", "text", "redirect"}      (JSON-able)
   opts = {"lang", "selected": [ns ids], "xmlns": "0.10"|"0.11"|"none", "siteinfo": bool, "extras": bool,
-          "indent": bool, "splits": [fractions -> multistream bz2], "decomp": "bzcat"|"py", "level": 1..9}
+          "indent": bool, "splits": [fractions -> multistream bz2], "decomp": "bzcat"|"py", "level": 1..9,
+          "pre": None | {"reads0": [[kind, title, ns]], "earlier_route": None|"process_dump"|"parse_dump_xml"|"parse_only",
+                         "earlier_selected": [ns ids], "reads1": [...]}}   (what the ingesting context did BEFORE; pages with
+          "phase": 0 form the earlier dump)
 The XML is produced by lxml (escaping is therefore third-party work).
 """
 from __future__ import annotations
@@ -427,6 +430,108 @@ def sweep_dump(rng, lang, variant):
     opts = {"lang": lang, "selected": sel, "xmlns": ["0.10", "0.11", "none"][variant % 3], "siteinfo": True, "extras": variant % 2 == 0,
             "indent": True, "splits": [] if variant % 2 else [0.31, 0.77], "decomp": "bzcat" if variant % 2 == 0 else "py", "level": 9}
     return pages, opts, {"feats": feats, "incl": incls, "default_situation": "absent", "dups": 0}
+
+
+# ---------------------------------------------------------------- used context (reads / earlier dump)
+
+HELPERS = ["!", "=", "((", "))"]
+EARLY_UID = 100000
+
+
+def spellings(lang, title, ns):
+    """Ways a caller may spell (title, ns) in a lookup: [(title, ns|None), ...]"""
+    pre = prefix(lang, ns)
+    rest = title[len(pre):] if pre and title.startswith(pre) else title
+    flip = rest[:1].swapcase() + rest[1:]
+    out = [(title, ns), (title, ns), (title, None), (rest, ns), (pre + flip, ns), (title.replace(" ", "_"), ns),
+           (pre.lower() + rest, ns), (pre.upper() + rest, ns)]
+    canon = nsdata(lang)["canon"].get(ns)
+    if ns != 0 and canon:
+        out.append((canon + ":" + rest, ns))
+    if ns == 0:
+        out += [("Main:" + title, 0), (":" + title, 0)]
+    return out
+
+
+def make_reads(rng, lang, pages, expand_ok=True):
+    """A seeded handful of reads: [[kind, title|wikitext, ns|None], ...]; kinds: page_exists, get_page, get_page_body,
+    resolve (get_page_resolve_redirect), expand."""
+    tp = nsdata(lang)["template"]
+    kinds = ["page_exists", "get_page", "get_page_body", "resolve"]
+    reads = []
+    for nm in rng.sample(HELPERS, rng.randint(1, 4)):
+        r = rng.random()
+        if expand_ok and r < 0.2:
+            reads.append(["expand", "a{{%s}}b" % nm, None])
+        elif r < 0.75:
+            reads.append([rng.choice(kinds), tp + ":" + nm, 10])
+        else:
+            t, ns = rng.choice(spellings(lang, tp + ":" + nm, 10))
+            reads.append([rng.choice(kinds), t, ns])
+    main = [p for p in pages if p.get("phase") != 0]
+    for p in rng.sample(main, min(len(main), rng.randint(0, 4))):
+        t, ns = rng.choice(spellings(lang, p["title"], p["ns"]))
+        reads.append([rng.choice(kinds), t, ns])
+    for _ in range(rng.randint(0, 2)):
+        ns = rng.choice([0, 10, 828, None])
+        reads.append([rng.choice(kinds), (prefix(lang, ns) if ns else "") + rng.choice(["No such page", "Nothing/here", "é none", ""]), ns])
+    if expand_ok and rng.random() < 0.3:
+        reads.append(["expand", rng.choice(["{{No such template|1}}", "x {{=}} y {{!}}", "[[link]] ''i''"]), None])
+    rng.shuffle(reads)
+    return reads
+
+
+def used_context(rng, lang, pages, opts, info, p_used=0.55, p_earlier=0.35):
+    """Sometimes the ingesting context is not fresh: it has answered lookups (also of titles the dump is about to
+    define, in several spellings, and of the helper templates) and / or has already ingested an EARLIER small dump
+    into the same database (pages marked "phase": 0; duplicates across the two dumps: last wins).
+    -> pages (earlier dump first); opts gets "pre"."""
+    if rng.random() >= p_used:
+        return pages
+    d = nsdata(lang)
+    ids = sorted(d["names"])
+    pre = {"reads0": make_reads(rng, lang, pages), "reads1": [], "earlier_route": None, "earlier_selected": []}
+    early = []
+    if rng.random() < p_earlier:
+        uid = EARLY_UID
+        for _ in range(rng.randint(2, 8)):
+            r = rng.random()
+            if r < 0.5 and pages:
+                src = rng.choice(pages)
+                how = rng.choice(["body", "body", "to-redirect", "dropped-model", "same"])
+                force = {"title": src["title"], "shape": "xdup"}
+                if how == "to-redirect":
+                    force["redirect"] = True
+                elif how == "dropped-model":
+                    force["model"], force["redirect"] = "css", False
+                else:
+                    force["redirect"] = False
+                    force["model"] = src["model"] if src["model"] in MODELS_KEPT else "wikitext"
+                p, f, incl = make_page(rng, lang, src["ns"], uid, force=force)
+                if how == "same":
+                    p["text"], p["redirect"], p["model"] = src["text"], src["redirect"], src["model"]
+                    incl = info["incl"].get(src["uid"])
+                f.add("xdup:" + how)
+            elif r < 0.7:
+                nm = rng.choice(HELPERS)
+                p, f, incl = make_page(rng, lang, 10, uid, force={"title": d["template"] + ":" + nm, "shape": "default-name",
+                                                                 "model": "wikitext", "redirect": rng.random() < 0.15})
+                f.add("early-helper")
+            else:
+                ns = rng.choice([0, 0, 10, 10, 828, rng.choice(ids)])
+                p, f, incl = make_page(rng, lang, ns, uid)
+            p["phase"] = 0
+            f.add("phase:earlier")
+            early.append(p)
+            info["feats"][uid] = f
+            if incl is not None:
+                info["incl"][uid] = incl
+            uid += 1
+        pre["earlier_route"] = rng.choice(["process_dump", "parse_dump_xml", "parse_only"])
+        pre["earlier_selected"] = rng.choice([list(opts["selected"]), list(ids), [0, 10, 828], list(opts["selected"])])
+        pre["reads1"] = make_reads(rng, lang, pages) if rng.random() < 0.7 else []
+    opts["pre"] = pre
+    return early + pages
 
 
 # ---------------------------------------------------------------- writing
